@@ -104,6 +104,16 @@ def run(ctx, config='rel-all'):
         # ---- case A: no limit
         I2, res2, _ = run_with_limit(ctx, db, body, NONE)
         g2 = [e for e in res2.events if e.kind == 'galloc']
+        # with no limit the small-limit bypass of the minimum chunk size must be dead: every candidate the generator
+        # turns into a chunk request is at least the minimum new chunk size ("an arena with no limit behaves as if the feature did not exist")
+        for e in res2.events:
+            if e.kind == 'call' and (e.callee or '').endswith('::new_chunk_memory_details') and any('closure' in f[0] for f in e.stack) and e.args and e.args[0][0] == 'agg' and e.args[0][2] == 'Some':
+                base = field_of(e.args[0], '0')
+                okb = any(f[0] == 'le' and len(f) == 3 and f[2] == base and f[1] != C(0) for f in e.state.facts)
+                if okb:
+                    ctx.ok('R9', '%s with allocation_limit = None: candidates below the minimum chunk size are never requested' % key, 'must-fact min <= candidate at the sizing call')
+                else:
+                    ctx.violation('R9', arena.short(arena.innermost(e)), 'no-limit:bypass-live', 'with no limit set the candidate generator still turns a size below the minimum chunk size into a request (the small-limit bypass is reachable with allocation_limit = None) [via %s]' % key, e.span)
         if g2:
             lim_facts = [f for e in g2 for f in e.state.facts if any(isinstance(t, tuple) and t and t[0] == 'load' and t[1][0] == 'fld' and t[1][2] == 'Bump.allocation_limit' for t in subterms(f))]
             ctx.ok('R1', '%s with allocation_limit = None reaches the acquirer (%d sites)' % (key, len(g2)), 'feasible under the None branch of the limit predicate')
